@@ -45,6 +45,11 @@ def gen_script(d, specs, dialect, weights=None, list_heavy=False, unresolved=Tru
                 if last_acc and d.chance(0.3):
                     mt = d.choice(last_acc)         # the very text given to an earlier filter command
                 cap = d.choice(['', '', ' ~ 1', ' ~ 2', '~3', ' ~ 0', ' ~ 50', '~1', ' ~5', ' ~ x'])
+                if d.chance(0.3):
+                    k = sum(1 for i in items if i[0] == 'line')      # recorded so far: caps at, just above and up to twice that
+                    cap = ' ~ %d' % max(1, d.choice([k - 1, k, k + 1, k + 2, (3 * k) // 2, 2 * k - 1, 2 * k, 2 * k + 1]))
+                    if d.chance(0.5):
+                        mt = d.choice(['', '*'])
                 items.append(['cmd', d.choice(['list ', 'l ', 'li ']) + mt + cap])
             elif k == 'breakpoint':
                 if d.chance(0.6):
